@@ -97,6 +97,8 @@ def src(e, depth=0):
         return e['v']
     if k == 'Str':
         return '"%s"' % e['v']
+    if k == 'Chr':
+        return repr(chr(e['v'])) if isinstance(e.get('v'), int) else repr(e.get('v'))
     if k == 'Bool':
         return 'true' if e['v'] else 'false'
     if k == 'Null':
